@@ -544,3 +544,18 @@ pub async fn flush_all_batches(connections: &mut [SrtlaConnection], conn_io: &Co
         }
     }
 }
+
+/// Verification hook (feature `verif-hooks`, OFF by default): hands out the
+/// private [`send_stall_probes`] future so the external harness crates under
+/// /verif can poll the REAL function. Add-only, no logic.
+#[cfg(feature = "verif-hooks")]
+pub fn vh_send_stall_probes_fut<'a>(
+    sel_idx: usize,
+    pkt: &'a [u8],
+    seq: Option<u32>,
+    connections: &'a mut [SrtlaConnection],
+    conn_io: &'a ConnIoMap,
+    packet_time_ms: u64,
+) -> impl std::future::Future<Output = ()> + 'a {
+    send_stall_probes(sel_idx, pkt, seq, connections, conn_io, packet_time_ms)
+}
